@@ -137,6 +137,53 @@ def mutate(ck, toks):
     return toks
 
 
+def cycle_modules(ck):
+    """reference chains n0 -> n1 -> .. -> nk -> nj (a cycle entered after a tail of j links) for each kind of reference, each with
+    the uses that make the linker chase them"""
+    out = []
+    for tail in range(0, 3):
+        for loop in range(1, 4):
+            n = tail + loop
+            ty = ['T%d' % i for i in range(n)]
+            va = ['v%d' % i for i in range(n)]
+            nxt = [(i + 1) if i + 1 < n else tail for i in range(n)]
+            tdefs = ' '.join('%s ::= %s' % (ty[i], ty[nxt[i]]) for i in range(n))
+            vdefs = ' '.join('%s INTEGER ::= %s' % (va[i], va[nxt[i]]) for i in range(n))
+            out += [
+                tdefs + ' w T0 ::= 5',
+                tdefs + ' w T0 ::= 5 u T0 ::= w',
+                tdefs + ' S ::= SEQUENCE { f T0 DEFAULT 3, g T0 OPTIONAL }',
+                tdefs + ' C ::= T0 (1..5) D ::= SEQUENCE OF T0 E ::= CHOICE { a T0 }',
+                tdefs + ' w T0 ::= red x T0 ::= { a 1 } y T0 ::= a : 5',
+                vdefs + ' A ::= INTEGER (0..v0)',
+                vdefs + ' A ::= INTEGER (v0..v0) B ::= SEQUENCE (SIZE (v0)) OF NULL',
+                vdefs + ' S ::= SEQUENCE { f INTEGER DEFAULT v0 }',
+                vdefs + ' o OBJECT IDENTIFIER ::= { 1 2 v0 } B ::= BIT STRING { b (v0) } E ::= ENUMERATED { e (v0) } N ::= INTEGER { n (v0) }',
+                ' '.join('%s ::= SEQUENCE { COMPONENTS OF %s, m%d NULL }' % (ty[i], ty[nxt[i]], i) for i in range(n)) + ' w T0 ::= { m0 NULL }',
+                ' '.join('%s ::= SEQUENCE OF %s' % (ty[i], ty[nxt[i]]) for i in range(n)) + ' w T0 ::= { }',
+                ' '.join('%s ::= SET { a %s OPTIONAL }' % (ty[i], ty[nxt[i]]) for i in range(n)) + ' w T0 ::= { }',
+                'CLS ::= CLASS { &id INTEGER UNIQUE, &Type } ' + ' '.join('Os%d CLS ::= { Os%d }' % (i, nxt[i]) for i in range(n))
+                + ' S ::= SEQUENCE { id CLS.&id ({Os0}), v CLS.&Type ({Os0}{@id}) }',
+                ' '.join('P%d {X} ::= P%d {X}' % (i, nxt[i]) for i in range(n)) + ' R ::= P0 {INTEGER}',
+                ' '.join('o%d OBJECT IDENTIFIER ::= { o%d 1 }' % (i, nxt[i]) for i in range(n)),
+                ' '.join('%s ::= x < %s' % (ty[i], ty[nxt[i]]) for i in range(n)),
+            ]
+    return out
+
+
+BIG = [2 ** 31, 2 ** 32 - 1, 2 ** 32, 2 ** 63, 2 ** 64 - 1, 2 ** 64, 2 ** 127 - 1, 2 ** 127, 2 ** 128, 10 ** 40]
+NUM_TEMPLATES = [
+    'o OBJECT IDENTIFIER ::= { 1 2 %d }', 'o OBJECT IDENTIFIER ::= { joint-iso-itu-t(2) uuid(25) %d }', 'o OBJECT IDENTIFIER ::= { %d 1 }',
+    'r RELATIVE-OID ::= { %d 3 }', 'A ::= [%d] INTEGER', 'A ::= [APPLICATION %d] EXPLICIT NULL', 'A ::= ENUMERATED { a (%d), b }',
+    'A ::= ENUMERATED { a (-%d) }', 'A ::= INTEGER { n (%d) } v A ::= n', 'A ::= INTEGER { n (-%d) }', 'A ::= BIT STRING { b (%d) }',
+    'A ::= INTEGER (0..%d)', 'A ::= INTEGER (-%d..0)', 'A ::= INTEGER (%d)', 'A ::= INTEGER (MIN..%d, ...)',
+    'A ::= OCTET STRING (SIZE (%d))', 'A ::= SEQUENCE (SIZE (0..%d)) OF NULL', 'A ::= IA5String (SIZE (%d..MAX))',
+    'v INTEGER ::= %d', 'v INTEGER ::= -%d', 'A ::= SEQUENCE { f INTEGER DEFAULT %d }', 'A ::= SEQUENCE { f INTEGER (0..%d) DEFAULT %d }',
+    'A ::= SEQUENCE { a NULL, ..., [[ %d: b NULL ]] }', 'v REAL ::= %d.5', 'v REAL ::= { mantissa %d, base 2, exponent %d }',
+    'A ::= UniversalString (FROM ({0,0,0,%d}))', 'A ::= INTEGER (1..5) (%d)', 'v SEQUENCE OF INTEGER ::= { %d, %d }',
+]
+
+
 def gen_cases(ck):
     cases = []
 
@@ -148,6 +195,11 @@ def gen_cases(ck):
     for n in NOTATIONS:
         add(wrap(n), 'notation')
     add(BASE, 'base')
+    for m in cycle_modules(ck):
+        add(wrap(m), 'reference-cycle')
+    for t in NUM_TEMPLATES:
+        for b in (BIG if not quick else [BIG[i] for i in sorted(ck.rng.sample(range(len(BIG)), 4))]):
+            add(wrap(t.replace('%d', str(b))), 'extreme-number')
     # every prefix (by characters; sampled in quick) of the base module and of the notations
     step = 7 if quick else 1
     for i in range(0, len(BASE), step):
